@@ -65,7 +65,7 @@ def load_trace(path):
 class C09(Check):
     id = "C09"
     level = "model_checking"
-    rule = ("for every function of every program of the corpus (all C01 skeleton layers of the tier, the repository's examples, "
+    rule = ("for every function of every program of the corpus (all C01 skeleton layers of the tier, the repository's examples and the programs of its test suite, "
             "generated programs of the other checks) the emitted instruction list (hook H3) is explored as the abstract machine "
             "(ip, open block frames, set of possible operand depths), both outcomes of every conditional instruction; invariants: "
             "jump targets inside the function, done/jmp_pop never pop more block frames than are open, the frame stack at an "
@@ -81,6 +81,7 @@ class C09(Check):
         ex = [("ex", top, rel) for top, rel in corpus.example_files()]
         from ..lang import gencorpus
         gen = [("gen", nm) for nm in gencorpus.names(tier)]
+        ex = ex + [("test", t[0]) for t in corpus.test_projects()]
         def cf(it):
             return (("cf",) + c for c in it)
         if tier == "quick":
@@ -112,6 +113,11 @@ class C09(Check):
         elif case[0] == "ex":
             cwd, entry = corpus.stage(d, case[1], case[2])
             feats = case[2]
+        elif case[0] == "test":
+            _, files, entry, _exp = next(t for t in corpus.test_projects() if t[0] == case[1])
+            driver.write_files(d, files)
+            cwd = d
+            feats = case[1]
         else:
             from ..lang import gencorpus
             files = gencorpus.get(case[1])
